@@ -1,6 +1,7 @@
 import MlModel.Lemmas.ConfusionSharding
 import MlModel.Lemmas.ConfusionSamplewise
 import MlModel.Lemmas.ConfusionTopKShard
+import MlModel.Lemmas.ConfusionNoVocab
 /-!
 # C01 (classification family) — confusion-matrix aggregates are invariant to batching / sharding
 
@@ -428,5 +429,129 @@ example :
       = .ok (some { tp := .m [[1, 1, 0], [1, 1, 2]], tn := .m [[1, 2, 1], [0, 2, 1]],
                     fp := .m [[1, 0, 0], [2, 0, 0]], fn := .m [[0, 0, 2], [0, 0, 0]] }) := by
   rfl
+
+/-! ## WITHOUT a vocabulary (open finding F8): exactly what is invariant and what is not
+
+`multiclass` / `multiclass-multioutput` input, `vocab=None` (or `{}`), `average='micro'`.  Every batch
+`b` deduces its own vocabulary; `ord b` is CPython's enumeration order of its label set (any
+duplicate-free list containing the labels of `b`: `ValidOrd`).  `exTP x = |T ∩ P|`,
+`exFN x = |T \ P|`, `exFP x = |P \ T|` are functions of the example alone.
+
+The full-strength statement "`runSharded … = feedApi [one batch]`" is FALSE here
+(`Witness.C01.C01_classification_F8_witness`); what holds is: -/
+
+/-- **closed form of the state after ANY composition into shards and batches** (multi-output):
+`tp`, `fp`, `fn` are sums over the examples of quantities that do not mention the batch; every
+example contributes `|V_b| − |T ∪ P|` to `tn`, `V_b` the vocabulary of the batch it was fed in
+(`noVocabD` on the examples tagged with `|V_b|`; `noVocabD_tp/_fp/_fn/_tn` read it off) -/
+theorem C01_classification_novocab_state_partial (c : Cfg) (hk : c.kind = .cm)
+    (hi : c.input = some .multioutput) (hv : c.vocab = none ∨ c.vocab = some []) (ha : c.average = .micro)
+    (ord : List LabelSets → List Label) (shards : List (List (List LabelSets)))
+    (hord : ∀ sh ∈ shards, ∀ b ∈ sh, ValidOrd id (ord b) b) :
+    runSharded c (shards.map (·.map fun b => moBatchO (ord b) b))
+      = .ok (if shards.flatten = [] then none
+             else some (noVocabD id (tagShards ord shards).flatten.flatten)) := by
+  have h := (noVocab_multioutput c hk hi hv ha ord).sharded (tagShards ord shards) (by
+    intro sh hsh b hb
+    obtain ⟨sh', hsh', rfl⟩ := List.mem_map.mp hsh
+    obtain ⟨b', hb', rfl⟩ := List.mem_map.mp hb
+    exact tagOK_tag id ord b' (hord sh' hsh' b' hb'))
+  have e : (tagShards ord shards).map (·.map (moBatchT ord))
+      = shards.map (·.map fun b => moBatchO (ord b) b) := by
+    simp only [tagShards, List.map_map]
+    apply List.map_congr_left; intro sh _
+    simp only [Function.comp, List.map_map]
+    apply List.map_congr_left; intro b _
+    simp only [Function.comp, moBatchT, moBatchO, map_fst_tag]
+  rw [e] at h
+  rw [h]
+  by_cases hn : shards.flatten = []
+  · rw [if_pos hn, if_pos ((tagShards_flatten_nil ord shards).mpr hn)]
+  · rw [if_neg hn, if_neg (fun h' => hn ((tagShards_flatten_nil ord shards).mp h'))]
+
+/-- the same for `multiclass` input (one label on each side) -/
+theorem C01_classification_novocab_state_multiclass_partial (c : Cfg) (hk : c.kind = .cm)
+    (hi : c.input = some .multiclass) (hv : c.vocab = none ∨ c.vocab = some []) (ha : c.average = .micro)
+    (ord : List (Label × Label) → List Label) (shards : List (List (List (Label × Label))))
+    (hord : ∀ sh ∈ shards, ∀ b ∈ sh, ValidOrd labMc (ord b) b) :
+    runSharded c (shards.map (·.map fun b => mcBatchO (ord b) b))
+      = .ok (if shards.flatten = [] then none
+             else some (noVocabD labMc (tagShards ord shards).flatten.flatten)) := by
+  have h := (noVocab_multiclass c hk hi hv ha ord).sharded (tagShards ord shards) (by
+    intro sh hsh b hb
+    obtain ⟨sh', hsh', rfl⟩ := List.mem_map.mp hsh
+    obtain ⟨b', hb', rfl⟩ := List.mem_map.mp hb
+    exact tagOK_tag labMc ord b' (hord sh' hsh' b' hb'))
+  have e : (tagShards ord shards).map (·.map (mcBatchT ord))
+      = shards.map (·.map fun b => mcBatchO (ord b) b) := by
+    simp only [tagShards, List.map_map]
+    apply List.map_congr_left; intro sh _
+    simp only [Function.comp, List.map_map]
+    apply List.map_congr_left; intro b _
+    simp only [Function.comp, mcBatchT, mcBatchO, map_fst_tag]
+  rw [e] at h
+  rw [h]
+  by_cases hn : shards.flatten = []
+  · rw [if_pos hn, if_pos ((tagShards_flatten_nil ord shards).mpr hn)]
+  · rw [if_neg hn, if_neg (fun h' => hn ((tagShards_flatten_nil ord shards).mp h'))]
+
+/-- **`tp`, `fp`, `fn` do not depend on the batching, `tn` does — by exactly the difference of the
+vocabulary sizes the examples are counted against.**  Two arbitrary compositions (with their own set
+orders) of the same dataset: both runs succeed, agree on `tp`, `fp`, `fn`, and
+`tn₁ − tn₂ = Σ_{b ∈ run 1} |b|·|V_b| − Σ_{b ∈ run 2} |b|·|V_b|` (each sum taken example by example).
+So finding F8 is confined to `tn` (and, for `macro`, to the class axis, which `merge_states` refuses). -/
+theorem C01_classification_novocab_tp_fp_fn (c : Cfg) (hk : c.kind = .cm)
+    (hi : c.input = some .multioutput) (hv : c.vocab = none ∨ c.vocab = some []) (ha : c.average = .micro)
+    (ord₁ ord₂ : List LabelSets → List Label) (shards₁ shards₂ : List (List (List LabelSets)))
+    (h₁ : ∀ sh ∈ shards₁, ∀ b ∈ sh, ValidOrd id (ord₁ b) b)
+    (h₂ : ∀ sh ∈ shards₂, ∀ b ∈ sh, ValidOrd id (ord₂ b) b)
+    (hsame : shards₁.flatten.flatten = shards₂.flatten.flatten)
+    (hne₁ : shards₁.flatten ≠ []) (hne₂ : shards₂.flatten ≠ []) :
+    ∃ s₁ s₂ : CMArr,
+      runSharded c (shards₁.map (·.map fun b => moBatchO (ord₁ b) b)) = .ok (some s₁) ∧
+      runSharded c (shards₂.map (·.map fun b => moBatchO (ord₂ b) b)) = .ok (some s₂) ∧
+      s₁.tp = s₂.tp ∧ s₁.fp = s₂.fp ∧ s₁.fn = s₂.fn ∧
+      s₁.tn.toS - s₂.tn.toS
+        = ((tagShards ord₁ shards₁).flatten.flatten.map fun y => (y.2 : Int)).sum
+          - ((tagShards ord₂ shards₂).flatten.flatten.map fun y => (y.2 : Int)).sum := by
+  refine ⟨noVocabD id (tagShards ord₁ shards₁).flatten.flatten,
+    noVocabD id (tagShards ord₂ shards₂).flatten.flatten, ?_, ?_, ?_, ?_, ?_, ?_⟩
+  · rw [C01_classification_novocab_state_partial c hk hi hv ha ord₁ shards₁ h₁, if_neg hne₁]
+  · rw [C01_classification_novocab_state_partial c hk hi hv ha ord₂ shards₂ h₂, if_neg hne₂]
+  · rw [noVocabD_tp, noVocabD_tp, tagShards_fst, tagShards_fst, hsame]
+  · rw [noVocabD_fp, noVocabD_fp, tagShards_fst, tagShards_fst, hsame]
+  · rw [noVocabD_fn, noVocabD_fn, tagShards_fst, tagShards_fst, hsame]
+  · rw [noVocabD_tn, noVocabD_tn, tagShards_fst, tagShards_fst, hsame]
+    simp only [Arr.toS]; omega
+
+/-- hence every rate that does not read `tn` (precision, recall, F1, miss rate, FDR, threat score …)
+reports the same value for every batching, vocabulary or not: equal `tp`, `fp`, `fn` ⇒ equal value -/
+theorem C01_classification_novocab_tn_free_rates (a b : Generated.CM Rat) (h1 : a.tp = b.tp)
+    (h2 : a.fp = b.fp) (h3 : a.fn = b.fn) :
+    Generated.Rates.precision a = Generated.Rates.precision b ∧
+    Generated.Rates.recall a = Generated.Rates.recall b ∧
+    Generated.Rates.f1 a = Generated.Rates.f1 b ∧
+    Generated.Rates.miss_rate a = Generated.Rates.miss_rate b ∧
+    Generated.Rates.false_discovery_rate a = Generated.Rates.false_discovery_rate b ∧
+    Generated.Rates.threat_score a = Generated.Rates.threat_score b ∧
+    Generated.Rates.accuracy a = Generated.Rates.accuracy b := by
+  simp [Generated.Rates.precision, Generated.Rates.recall, Generated.Rates.f1, Generated.Rates.miss_rate,
+    Generated.Rates.false_discovery_rate, Generated.Rates.threat_score, Generated.Rates.accuracy,
+    Generated.CM.p, Generated.CM.t, h1, h2, h3]
+
+/-- non-vacuity: the dataset of the F8 witness (`y = ŷ = [[0],[1]]`) in one batch and in two -/
+example :
+    let c : Cfg := { kind := .cm, metrics := [.PRECISION], single := true, posLabel := 1,
+                     input := some .multioutput, average := .micro, vocab := none, kList := [] }
+    let ord : List LabelSets → List Label := fun b => (b.flatMap fun x => x.1 ++ x.2).dedup
+    ∃ s₁ s₂ : CMArr,
+      runSharded c ([[[([0], [0]), ([1], [1])]]].map (·.map fun b => moBatchO (ord b) b)) = .ok (some s₁) ∧
+      runSharded c ([[[([0], [0])]], [[([1], [1])]]].map (·.map fun b => moBatchO (ord b) b)) = .ok (some s₂) ∧
+      s₁.tp = s₂.tp ∧ s₁.fp = s₂.fp ∧ s₁.fn = s₂.fn ∧ s₁.tn.toS - s₂.tn.toS = 2 := by
+  intro c ord
+  obtain ⟨s₁, s₂, e1, e2, h3, h4, h5, h6⟩ := C01_classification_novocab_tp_fp_fn c rfl rfl (Or.inl rfl) rfl
+    ord ord [[[([0], [0]), ([1], [1])]]] [[[([0], [0])]], [[([1], [1])]]]
+    (by decide) (by decide) rfl (by decide) (by decide)
+  exact ⟨s₁, s₂, e1, e2, h3, h4, h5, by rw [h6]; decide⟩
 
 end MlModel.C01
